@@ -420,7 +420,9 @@ func forSpecials() []model.Stmt {
 	// arrays that come out of built-ins: empty ones must take the @else branch, the iterated
 	// array must not change while the body builds other arrays from the same base
 	base3 := intArr(1, 2, 3)
-	callE := func(x model.Expr, name string, args ...model.Expr) model.Expr { return model.Call{X: x, Name: name, Args: args} }
+	callE := func(x model.Expr, name string, args ...model.Expr) model.Expr {
+		return model.Call{X: x, Name: name, Args: args}
+	}
 	vv := model.Var{Name: "v"}
 	elseNone := []model.Stmt{model.Text{S: " none"}}
 	show := []model.Stmt{model.Text{S: "["}, model.Print{E: vv}, model.Text{S: "]"}}
